@@ -35,6 +35,34 @@ func propC18(p *Prog, r *Report) {
 		r.Undecided("C18.a", kBinarySearch, "", "binarySearch not found (a different search implementation is not analysed)")
 		return
 	}
+	// the loop may sit in a function binarySearch only adapts (lastBeforeIndex(arr, seq) int: an index, -1 = none)
+	c18Adapter, c18IndexResult = nil, false
+	hasLoop := func(g *FuncInfo) bool {
+		found := false
+		ast.Inspect(g.Decl.Body, func(x ast.Node) bool {
+			if _, ok := x.(*ast.ForStmt); ok {
+				found = true
+			}
+			return !found
+		})
+		return found
+	}
+	if !hasLoop(fi) {
+		ast.Inspect(fi.Decl.Body, func(x ast.Node) bool {
+			if c, ok := x.(*ast.CallExpr); ok && c18Adapter == nil {
+				if h := p.staticCallee(fi.Pkg, c); h != nil && h.Pkg == fi.Pkg && h.Decl.Body != nil && hasLoop(h) && h.Sig().Params().Len() == 2 {
+					c18Adapter = fi
+					fi = h
+					if h.Sig().Results().Len() == 1 {
+						if bt, isB := h.Sig().Results().At(0).Type().Underlying().(*types.Basic); isB && bt.Info()&types.IsInteger != 0 {
+							c18IndexResult = true
+						}
+					}
+				}
+			}
+			return true
+		})
+	}
 	info := fi.Pkg.TypesInfo
 	var arrObj, seqObj types.Object
 	for _, fld := range fi.Decl.Type.Params.List {
@@ -314,6 +342,13 @@ func c18Tail(p *Prog, r *Report, fi *FuncInfo) {
 		if rs, ok := fi.Decl.Body.List[n-1].(*ast.ReturnStmt); ok && len(rs.Results) == 1 && isNilIdent(info, rs.Results[0]) {
 			nilAfter = true
 		}
+		// an index-returning search: a negative constant when the window is exhausted, and the adapter turns a
+		// negative answer into nil and a position into that element
+		if rs, ok := fi.Decl.Body.List[n-1].(*ast.ReturnStmt); ok && len(rs.Results) == 1 && c18IndexResult {
+			if v, isC := constInt(info, rs.Results[0]); isC && v < 0 {
+				nilAfter = c18AdapterMaps(p, fi)
+			}
+		}
 	}
 	r.Check(nilAfter, "C18.b", kBinarySearch+"#not-found", p.pos(fi.Decl), "nil when the window is exhausted", "the search does not return nil when no version is before the probe")
 	// C18.c
@@ -370,7 +405,7 @@ func c18Tail(p *Prog, r *Report, fi *FuncInfo) {
 		if !nilSafe {
 			// or an unsuccessful search is tested for: with the search yielding nil, LastBefore (helpers inlined)
 			// reaches a return of the zero version without dereferencing the result
-			fin := p.FlatInlExcept(lb, kBinarySearch)
+			fin := p.FlatInlExcept(lb, kBinarySearch, fi.Key)
 			env := &Env{P: p, Pkg: lb.Pkg, Vars: map[types.Object]*Val{}}
 			env.Vars[recv] = &Val{Ptr: &Val{Fields: map[string]*Val{fileFields.Arr: {Tag: "arr"}}}}
 			env.Hook = func(env *Env, e ast.Expr) (*Val, bool) {
@@ -380,6 +415,10 @@ func c18Tail(p *Prog, r *Report, fi *FuncInfo) {
 					}
 					if p.callIs(env.Pkg, c, kBinarySearch) {
 						return &Val{Nil: true}, true
+					}
+					// LastBefore may ask the index-returning search itself: no position
+					if c18IndexResult && p.staticCallee(env.Pkg, c) == fi {
+						return intVal(-1), true
 					}
 				}
 				return nil, false
@@ -533,6 +572,12 @@ func c18IndexWindow(p *Prog, r *Report, fi *FuncInfo, loop *ast.ForStmt, arrObj,
 								action = "return arr[n]"
 							}
 						}
+						// the search answers with the position: return mid
+						if c18IndexResult {
+							if iv, err := env.Eval(rs.Results[0]); err == nil && iv != nil && iv.C != nil && iv.C.ExactString() == fmt.Sprint(mid) {
+								action = "return arr[n]"
+							}
+						}
 					} else {
 						nl, nh := env.Vars[loObj], env.Vars[hiObj]
 						switch {
@@ -647,4 +692,62 @@ func isZeroValueExpr(info *types.Info, fi *FuncInfo, e ast.Expr) bool {
 		return declared && !assigned
 	}
 	return false
+}
+
+// the search root of C18 when binarySearch only adapts another function (set by propC18 for its helpers)
+var (
+	c18Adapter     *FuncInfo
+	c18IndexResult bool
+)
+
+// c18AdapterMaps: binarySearch, given the position answered by the search root, returns nil for a negative position
+// and the element at the position otherwise.
+func c18AdapterMaps(p *Prog, root *FuncInfo) bool {
+	ad := c18Adapter
+	if ad == nil {
+		return true // no adapter: the callers use the position themselves (LastBefore is checked by C18.c)
+	}
+	info := ad.Pkg.TypesInfo
+	var arrObj types.Object
+	for _, o := range paramObjs(ad) {
+		if o != nil {
+			if _, isSl := o.Type().(*types.Slice); isSl {
+				arrObj = o
+			}
+		}
+	}
+	good := true
+	for _, pos := range []int64{-1, 0, 2} {
+		f := p.FlatOf(ad)
+		env := &Env{P: p, Pkg: ad.Pkg, Vars: map[types.Object]*Val{}}
+		env.Hook = func(env *Env, e ast.Expr) (*Val, bool) {
+			if c, ok := e.(*ast.CallExpr); ok && p.staticCallee(env.Pkg, c) == root {
+				return intVal(pos), true
+			}
+			return nil, false
+		}
+		_, exit, err := f.WalkPath(env)
+		if err != nil {
+			return false
+		}
+		rs := f.returnStmt(exit)
+		if rs == nil || len(rs.Results) != 1 {
+			return false
+		}
+		if pos < 0 {
+			if !isNilIdent(info, rs.Results[0]) {
+				good = false
+			}
+			continue
+		}
+		ix, ok := ast.Unparen(rs.Results[0]).(*ast.IndexExpr)
+		if !ok || objOf(info, ix.X) != arrObj {
+			good = false
+			continue
+		}
+		if iv, err := env.Eval(ix.Index); err != nil || iv == nil || iv.C == nil || iv.C.ExactString() != fmt.Sprint(pos) {
+			good = false
+		}
+	}
+	return good
 }
